@@ -257,14 +257,21 @@ def build_traj(spec: dict):
                     Species[s]: _gen_array(rng, dt, n, extreme) for s in sp_map.get(fname, [])
                 })
             elif dims == 'TM':
-                val = ThrustModeValues({m: _gen_scalar(rng, dt, extreme) for m in ThrustMode})
+                # the same value whatever order its keys were given in
+                modes = list(ThrustMode)
+                vals = {m: _gen_scalar(rng, dt, extreme) for m in modes}
+                if spec['cs'] % 2:
+                    modes = [modes[i] for i in rng.permutation(len(modes))]
+                val = ThrustModeValues({m: vals[m] for m in modes})
             elif dims == 'TSM':
-                val = SpeciesValues({
-                    Species[s]: ThrustModeValues(
-                        {m: _gen_scalar(rng, dt, extreme) for m in ThrustMode}
-                    )
-                    for s in sp_map.get(fname, [])
-                })
+                def _tm():
+                    modes = list(ThrustMode)
+                    vals = {m: _gen_scalar(rng, dt, extreme) for m in modes}
+                    if spec['cs'] % 2:
+                        modes = [modes[i] for i in rng.permutation(len(modes))]
+                    return ThrustModeValues({m: vals[m] for m in modes})
+
+                val = SpeciesValues({Species[s]: _tm() for s in sp_map.get(fname, [])})
             else:  # pragma: no cover
                 raise ValueError(dims)
             if fname in unset:
